@@ -36,6 +36,7 @@ function syntaxOne(c) {
 
 // ---------------------------------------------------------------- universal logging proxy
 const uNames = new WeakMap();
+let noNames = false;
 function primOf(name) { let h = 0; for (let i = 0; i < name.length; i++) h = (h * 31 + name.charCodeAt(i)) % 89; return h + 2; }
 function mkU(name, log, opts) {
   if (name.length > 60) name = name.slice(0, 28) + '~' + name.slice(-28);
@@ -103,6 +104,7 @@ function ser(v, depth, seen) {
       let proto = Object.getPrototypeOf(v);
       let cn = '';
       if (proto === null) cn = 'null-proto';
+      else if (noNames) cn = proto === Object.prototype ? '' : 'inst';
       else if (proto !== Object.prototype && proto.constructor && proto.constructor.name && proto.constructor.name !== 'Object') cn = proto.constructor.name;
       const keys = Reflect.ownKeys(v);
       const parts = [];
@@ -261,6 +263,7 @@ const ops = {
     const r = [];
     for (const c of req.cases) {
       const obs = [];
+      noNames = !!c.noNames;
       for (const code of c.codes) obs.push(c.async ? await runOneAsync(code, c) : runOne(code, c));
       r.push(obs);
     }
